@@ -833,11 +833,11 @@ fn gen_tls(r: &mut Rng, thorough: bool) -> Vec<String> {
 fn generate(tier: &str, rng: &mut Rng) -> Vec<Case> {
     let thorough = tier == "thorough";
     let mut cases = vec![];
-    let n_tls = if thorough { 4000 } else { 400 };
+    let n_tls = if thorough { 3200 } else { 400 };
     for i in 0..n_tls {
         cases.push(Case { name: format!("tls{i}"), lines: gen_tls(rng, thorough) });
     }
-    let n_ws = if thorough { 600 } else { 50 };
+    let n_ws = if thorough { 500 } else { 50 };
     for i in 0..n_ws {
         cases.push(Case { name: format!("ws{i}"), lines: ws::gen_ws(rng, thorough) });
     }
